@@ -124,6 +124,9 @@ RLExpect(c) ==
     [] op = "rl_ufunc" -> RLUfunc(c[2], c[3], c[4])
     [] op = "rl_reduce" -> RLReduce(c[2], c[3], c[4])
     [] op = "rl_concat" -> RLConcat(c[2])
+    \* astype: every element converted as ndarray.astype converts it (beyond the listed properties: part of the same arithmetic family)
+    [] op = "rl_astype" -> IF c[3] = <<>> \/ \E i \in DOMAIN c[3] : ~CastOK(c[2], c[4], c[3][i]) THEN R_UNSPEC
+                           ELSE <<"rl", c[4], [i \in DOMAIN c[3] |-> Cast(c[2], c[4], c[3][i])], FALSE>>
     \* the sum of a 64-bit array whose values are given as limbs: exact modulo 2^64, in the array's own dtype
     [] op = "rl_wsum" -> IF c[3] = <<>> \/ c[2] \notin {"i8", "u8"} \/ ~WideFits(c[3], c[2]) THEN R_UNSPEC ELSE <<"scalar", c[2], WideSum(c[3])>>
     \* np.histogram(rla) = np.histogram(decoded array): the property defines the expectation as numpy's own answer on the
